@@ -1833,7 +1833,8 @@ PROP = Property(
               "C18.class_offered_iff", "C18.kinds_covered", "C18.refresh_order", "C18.refresh_nodup", "C18.refresh_none",
               "C18.selection_valid_after_refresh", "C18.selection_valid", "C18.picker_after_refresh_ok",
               "C18.explicit_none_accepted",
-              "C18.combo_history_valid", "C18.dcombo_history_valid",
+              "C18.combo_history_valid", "C18.combo_history_valid_as_coded", "C18.unsubscribe_without_reset_breaks",
+              "C18.dcombo_history_valid",
               "C18.image_axes_distinct", "C18.image_axes_spec", "C18.image_1d_reference_crashes"],
     families=[Kinds(), Axes(), Combo(), ComboRandom(), DCombo(), VPick(), View(), ViewRandom()],
     trusted_base=["the `echo` callback-property library (SelectionCallbackProperty._choices_updated / __set__, delay_callback, CallbackList) is modelled (its selection rule) or assumed (callback ordering), validated by the correspondence families",
